@@ -515,6 +515,7 @@ impl Function {
                 | Function::Day
                 | Function::Month
                 | Function::Year
+                | Function::DayOfWeek
                 | Function::Abs
                 | Function::Power
                 | Function::Sqrt
